@@ -131,18 +131,21 @@ Upsert(al, k, v) == IF Lookup(al, k) = 0 THEN Append(al, <<k, v>>) ELSE [al EXCE
 (* ----- dedup: one pass over the batch, combinationHashes carried across batches ----- *)
 DedupKey(c, r) == [i \in 1..Len(c.fs) |-> Get(r, c.fs[i])]
 HasNullKey(c, r) == \E i \in 1..Len(c.fs) : Get(r, c.fs[i]) = NULL
+(* a row that is not kept is dropped - or, with keepevents=true, stays with its dedup fields removed *)
+Nulled(c, r) == [x \in DOMAIN r |-> IF \E i \in 1..Len(c.fs) : c.fs[i] = x THEN NULL ELSE r[x]]
+Unkept(c, acc, r) == IF c.keepevents THEN Append(acc, Nulled(c, r)) ELSE acc
 RECURSIVE DedupFold(_, _, _, _)
 DedupFold(c, seen, rows, acc) ==
    IF rows = <<>> THEN [seen |-> seen, out |-> acc]
    ELSE LET r == Head(rows)
             k == DedupKey(c, r)
         IN IF HasNullKey(c, r)
-           THEN DedupFold(c, seen, Tail(rows), IF c.keepempty THEN Append(acc, r) ELSE acc)
+           THEN DedupFold(c, seen, Tail(rows), IF c.keepempty THEN Append(acc, r) ELSE Unkept(c, acc, r))
            ELSE LET i == Lookup(seen, k)
                     n == IF i = 0 THEN 0 ELSE seen[i][2]
                     seen1 == Upsert(seen, k, n + 1)
-                    seen2 == IF c.consec THEN <<<<k, n + 1>>>> ELSE seen1
-                IN DedupFold(c, seen2, Tail(rows), IF n >= c.lim THEN acc ELSE Append(acc, r))
+                    seen2 == IF c.consec THEN <<<<k, n + 1>>>> ELSE seen1     \* consecutive: only the current run is remembered
+                IN DedupFold(c, seen2, Tail(rows), IF n >= c.lim THEN Unkept(c, acc, r) ELSE Append(acc, r))
 
 (* ----- streamstats: one pass over the batch; running state per group ----- *)
 SSGroup(c, r) == IF c.by = "" THEN GALL ELSE <<Get(r, c.by)>>
@@ -383,8 +386,9 @@ DedupRef(c, rows) ==
                            lastOther == {j \in 1..(i - 1) : ~HasNullKey(c, rows[j]) /\ DedupKey(c, rows[j]) # DedupKey(c, rows[i])}
                            from == IF c.consec /\ lastOther # {} THEN CHOOSE m \in lastOther : \A x \in lastOther : x <= m ELSE 0
                        IN Cardinality({j \in same : j > from}) < c.lim
-       idx == {i \in 1..Len(rows) : Keep(i)}
-   IN [k \in 1..Cardinality(idx) |-> rows[SetToSortSeq(idx, LAMBDA x, y : x < y)[k]]]
+       idx == {i \in 1..Len(rows) : Keep(i) \/ c.keepevents}
+       ord == SetToSortSeq(idx, LAMBDA x, y : x < y)
+   IN [k \in 1..Cardinality(idx) |-> IF Keep(ord[k]) THEN rows[ord[k]] ELSE Nulled(c, rows[ord[k]])]
 AggRef(c, rows) ==   \* set of admissible result sequences of stats / top / rare
    LET acc == AggFold(c, <<>>, rows)
        full == IF c.op = "stats" /\ c.by = "" /\ acc = <<>> THEN {<<AggRow(c, <<GALL, [cnt |-> 0, sum |-> 0]>>)>>}
